@@ -68,7 +68,7 @@ LEVEL_NOTE = ('Trusted: Lean kernel (axioms propext, Classical.choice, Quot.soun
 RULE = ('random histories (<= 40 operations counting handler statements) over 1-4 clients x {RAM, file} x timeout '
         '{1,2,3} ticks: requests with no / own / stale / foreign / unknown / malformed (lock-file name, upper-cased, '
         'path alias, prefix, empty, directory-escaping) cookie whose handler reads, writes picklable values, deletes '
-        'keys, clears, regenerates, deletes or expires the session; clock advances aimed at expiry-1/expiry/expiry+1; '
+        'keys, clears, regenerates, deletes or expires the session (some responses streamed, so that save runs at on_end_request); clock advances aimed at expiry-1/expiry/expiry+1; '
         'synchronous sweeps; file damage (truncation offset, zero length, garbage); scripted id-source collisions '
         'with live ids; plus every truncation offset of real saved files with the torn file between two expired '
         'sessions.  Non-trivial = at least two requests and at least one adopted id; distinct = distinct '
